@@ -1,0 +1,9 @@
+// Package verifhook holds the instrumentation points used by the deterministic
+// simulation checks that live outside this repository. Without the "verif"
+// build tag every function in here is empty and gets inlined away, so the
+// shipped behaviour is unchanged. With the tag, a simulator running in the same
+// process can install a handler that is called immediately before each
+// file-system step of the work unit protocol (to yield, re-order or "crash"
+// there), and a command-runner process can be told through the environment to
+// kill itself at a given step.
+package verifhook
